@@ -54,7 +54,9 @@ type RTObs struct {
 }
 
 func rtChain(ks string) *Chain {
-	return cachedChain("rt-"+ks, func() *Chain { return StdChain("rt"+strings.ToLower(strings.ReplaceAll(ks, "-", "")), 3, KeySpecName(ks)) })
+	return cachedChain("rt-"+ks, func() *Chain {
+		return StdChain("rt"+strings.ToLower(strings.ReplaceAll(ks, "-", "")), 3, KeySpecName(ks))
+	})
 }
 
 func rtSigner(in RTIn, chain *Chain) interface {
@@ -85,8 +87,8 @@ func rtVerifier(chain *Chain) (notation.Verifier, notation.BlobVerifier) {
 	st.put(truststore.TypeCA, "s1", chain.Root())
 	sv := trustpolicy.SignatureVerification{VerificationLevel: "strict"}
 	v, err := verifier.NewVerifierWithOptions(st, verifier.VerifierOptions{
-		OCITrustPolicy:  &trustpolicy.OCIDocument{Version: "1.0", TrustPolicies: []trustpolicy.OCITrustPolicy{{Name: "p", SignatureVerification: sv, TrustStores: []string{"ca:s1"}, TrustedIdentities: []string{"x509.subject: " + chain.Leaf().Subject.String()}, RegistryScopes: []string{"*"}}}},
-		BlobTrustPolicy: &trustpolicy.BlobDocument{Version: "1.0", TrustPolicies: []trustpolicy.BlobTrustPolicy{{Name: "bp", SignatureVerification: sv, TrustStores: []string{"ca:s1"}, TrustedIdentities: []string{"*"}}}},
+		OCITrustPolicy:                  &trustpolicy.OCIDocument{Version: "1.0", TrustPolicies: []trustpolicy.OCITrustPolicy{{Name: "p", SignatureVerification: sv, TrustStores: []string{"ca:s1"}, TrustedIdentities: []string{"x509.subject: " + chain.Leaf().Subject.String()}, RegistryScopes: []string{"*"}}}},
+		BlobTrustPolicy:                 &trustpolicy.BlobDocument{Version: "1.0", TrustPolicies: []trustpolicy.BlobTrustPolicy{{Name: "bp", SignatureVerification: sv, TrustStores: []string{"ca:s1"}, TrustedIdentities: []string{"*"}}}},
 		RevocationCodeSigningValidator:  ctxValidator{&mockRevocation{}},
 		RevocationTimestampingValidator: ctxValidator{&mockRevocation{}},
 	})
